@@ -100,6 +100,13 @@ CHECKS = {
             "scheme, result and point count compared with the uninterrupted run; restored instance compared with the saved one.",
             "d=2; real estimators; dill persistence into a scratch directory.",
             "exhaustive interruption-point enumeration, differential oracle against the uninterrupted run"),
+    "C15": ("DESIGN.md 2/C15",
+            "(a) every refinement tree with leaves at depth<=3 (thorough 4) built with the probability-halving midpoint plus tail chains, "
+            "for 7 distribution configurations x boundary flag: weight sign/sum/uniform laws and the midpoint law on every interval; "
+            "(b) BFS over refinement-decision histories of the dimension-wise strategy on the weighted grid (plus default-estimator "
+            "runs) with the affine images and a constant carried as components of one model: moment transformation laws in every state.",
+            "Normal on a finite box: laws hold up to the mass deficit of the box; midpoint law for intervals of mass >= 2^-10.",
+            "exhaustive tree enumeration + explicit-state BFS over decision histories"),
     "C18": ("DESIGN.md 2/C18",
             "Every operation sequence of depth 4 (thorough 5) over a 21-operation alphabet (scalings with/without override, factors, "
             "shifts, revert, explorer-chosen shuffle permutations, boundary move, the three splits followed by concatenation, in-range / "
